@@ -93,23 +93,25 @@ func newUniverse(nOnce int) *Universe {
 
 // Env is the per-render environment of the simulated expression bodies.
 type Env struct {
-	U        *Universe
-	points   int    // fault points reached so far (expressions + hand-written components)
-	FailAt   int    // fault point to fail (-1 none)
-	CancelAt int    // fault point at which the context is cancelled (-1 none)
-	Cancel   func() // cancels the render's context
-	FailedK  string // key of the expression that was failed ("Text.f")
-	Fired    string // "expr" | "nested" | ""
-	Hook     func(kind, key string)
+	U         *Universe
+	points    int    // fault points reached so far (expressions + hand-written components)
+	FailAt    int    // fault point to fail (-1 none)
+	CancelAt  int    // fault point at which the context is cancelled (-1 none)
+	Cancel    func() // cancels the render's context
+	FailedK   string // key of the expression that was failed ("Text.f")
+	Fired     string // "expr" | "nested" | ""
+	Hook      func(kind, key string)
 	Cancelled bool // the context was cancelled at a fault point of this render
-	Static   bool // shared between tasks: no counters, no faults
+	Static    bool // shared between tasks: no counters, no faults
 	// C12: universe of scripts/css, node extensions, and the log of rendered uses.
 	C12  *c12u
 	Ext  map[*Node]*nodeExt
 	Uses []useRec
 }
 
-func newEnv(u *Universe) *Env { return &Env{U: u, FailAt: -1, CancelAt: -1, C12: defaultC12, Ext: genUses} }
+func newEnv(u *Universe) *Env {
+	return &Env{U: u, FailAt: -1, CancelAt: -1, C12: defaultC12, Ext: genUses}
+}
 
 // defaultC12 is the script/css universe of worlds that mix uses into general trees.
 var defaultC12 *c12u
